@@ -46,7 +46,7 @@ STREAM_ITER_USERS = {
     "stream::Stream::exact_size_boxed": {"move"},
 }
 
-FEATURES = {"bytes::Bytes": "bytes"}
+FEATURES = {"bytes::Bytes": "bytes", "input::IoInput": "std"}
 
 
 def feature_of(key):
